@@ -594,6 +594,8 @@ pub fn run(ctx: &mut Ctx) {
     ctx.run_suite(&ResponseSuite);
     ctx.run_suite(&ResponseH3Suite);
     ctx.run_suite(&super::c10real::RealConnectSuite);
+    // the real forwarder's choice among several resolver answers decides between 200 and 502 / 310 / 311
+    ctx.run_suite(&super::c03conn::ConnectorSuite);
     ctx.assume("HTTP/3 runs in real time against the real QUIC listener with a 400 ms establishment timeout; the time of the response is judged on HTTP/1.1 and HTTP/2 only (virtual clock)");
     ctx.assume("a multiplexer whose creation fails after the 200 had to be sent is don't-care for the status (exactly one response still required)");
     ctx.assume("CONNECT with an Expect header is answered 417 by the codec before the tunnel channel and is excluded");
@@ -604,6 +606,7 @@ pub fn replay(ctx: &mut Ctx, suite: &str, case: &Value) -> bool {
         "final-response" => ctx.replay_suite(&ResponseSuite, case),
         "final-response-h3" => ctx.replay_suite(&ResponseH3Suite, case),
         "real-connect-errors" => ctx.replay_suite(&super::c10real::RealConnectSuite, case),
+        "connector-spellings" => ctx.replay_suite(&super::c03conn::ConnectorSuite, case),
         _ => false,
     }
 }
